@@ -185,4 +185,22 @@ PROPS = {
             "idiom rewrite: path_processor.join(d, *rel.split(sep)) is read as join-of-split(d, rel, sep) (assumed contract over the unsplit string)",
         ],
     },
+    "C25": {
+        "category": "other",
+        "harness_modes": ["crosscheck"],
+        "explanation": "Fragment. 'Verbatim' is the structural obligation that every user-supplied value enters the command text only as shlex.quote(value) (one shell "
+        "word that sh expands to exactly the value; trusted, validated against /bin/sh on every run). Proved for all strings: create_command (fresh process; default "
+        "redirections) renders the working directory and every environment value as quoted words — this obligation FAILED on the pinned tree and the defect was repaired "
+        "(fix: f0cd742); _build_shell_command (persistent shell) runs a command that has an environment or a working directory in a CHILD `sh -c <one quoted word>` with the "
+        "directory and every value quoted, followed by the end marker with the exit status (so nothing leaks into the long-lived shell). BaseConnector.run hands the command "
+        "to an executor at least once and at most twice; 'exactly once' does NOT hold (recorded finding KF-C25-timeout-reexecution). NOT decided by proof: the framing "
+        "of the shell's output stream in BaseShell._read_with_output/_read_without_output (marker search, incremental UTF-8 decoding, status parsing), run_in_subprocess "
+        "(OS process semantics), CommandTemplateMap.get_command (jinja2; recorded finding KF-C25-template-env-quoting) — exercised by the bounded run-time comparison "
+        "of the persistent shell against fresh processes only.",
+        "assumptions": [
+            "A-SHLEX/A-SH a POSIX shell expands shlex.quote(x) to the single word x; `sh -c WORD` runs in a child process",
+            "assumed summaries of run_in_shell (may fail before or after starting the command), run_in_subprocess, create_command (inside BaseConnector.run), get_shell",
+            "string concatenation is kept in canonical right-nested form (associativity and the empty unit hold syntactically)",
+        ],
+    },
 }
